@@ -154,6 +154,13 @@ func init() {
 	}
 	registerFixture(fixtureCheck{Group: "ro", Pkg: "ro/bad", Run: ro, Want: []string{"ro/bad.Walk:Field#1", "ro/bad.Get:FieldByName#1", "ro/bad.Kind:TypeOf#1"}})
 	registerFixture(fixtureCheck{Group: "ro", Pkg: "ro/good", Run: ro})
+	shape := func(c *Ctx, r *Result, key string) {
+		g, fs := c.fixGraph(key)
+		runSEPLEN(c, r, "SEPLEN", fixFuncs(c, g, fs))
+		runMAPEQ(c, r, "MAPEQ", fixFuncs(c, g, fs))
+	}
+	registerFixture(fixtureCheck{Group: "shape", Pkg: "shape/bad", Run: shape, Want: []string{"shape/bad.Join:separator-by-length#1", "shape/bad.JoinConcat:separator-by-length#1", "shape/bad.SameMap:map-equality#1:size", "shape/bad.SameMapLen:map-equality#1:presence"}})
+	registerFixture(fixtureCheck{Group: "shape", Pkg: "shape/good", Run: shape})
 	kind := func(c *Ctx, r *Result, key string) {
 		g, fs := c.fixGraph(key)
 		runKINDIn(c, g, r, "KIND", fixFuncs(c, g, fs), nil)
